@@ -147,9 +147,9 @@ def compile(
         pdk = default()
     elif isinstance(pdk, str):
         # Grab by-name from our registered names-dict
-        pdk = _mgr.names.get(pdk, None)
+        name, pdk = pdk, _mgr.names.get(pdk, None)
         if pdk is None:
-            msg = f"No PDK named {pdk}"
+            msg = f"No PDK named {name}. Registered: {sorted(_mgr.names)}"
             raise RuntimeError(msg)
     elif isinstance(pdk, ModuleType):
         # PDK packages commonly register an inner module, and re-export its `compile`.
